@@ -491,6 +491,20 @@ def emit_digest():
     ev.add("categories", ["b", "a", "c"])
     ev.add("rrule", {"freq": "yearly", "bymonth": [3, 1, 2], "byday": ["SU", "MO"], "x-foo": "1", "wkst": "MO"})
     h.update(ev.to_ical())
+    # date lists mixing value kinds (every pair and the triple of DATE / DATE-TIME / PERIOD / TIME, both orders)
+    kinds = {"date": date(2024, 2, 1), "dt": datetime(2024, 3, 1, 10, tzinfo=timezone.utc),
+             "period": (datetime(2024, 3, 1, 10, tzinfo=timezone.utc), datetime(2024, 3, 1, 11, tzinfo=timezone.utc)),
+             "perdur": (datetime(2024, 3, 2, 10, tzinfo=timezone.utc), timedelta(hours=1)), "time": time(10, 30)}
+    for k in (2, 3):
+        for combo in itertools.permutations(kinds, k):
+            for prop in ("rdate", "exdate"):
+                e2 = Event()
+                try:
+                    e2.add(prop, [kinds[c] for c in combo])
+                    h.update(e2.to_ical())
+                except Exception as exc:  # noqa: BLE001 - a refusal must be the same refusal under every seed
+                    h.update(type(exc).__name__.encode())
+                n += 1
     print(h.hexdigest(), n)
 
 
